@@ -399,11 +399,14 @@ fn shrink_xport(cx: &mut Ctx, start: XCase) {
                         cands.push(XOp::Cmd { op: *op, args: args[..args.len() - 1].to_vec() });
                     }
                 }
-                XOp::Pixels { n, data } => {
+                XOp::Pixels { n, data, inexact } => {
                     let px = data.len() / *n as usize;
                     if px > 0 {
-                        cands.push(XOp::Pixels { n: *n, data: data[..(px / 2) * *n as usize].to_vec() });
-                        cands.push(XOp::Pixels { n: *n, data: data[..(px - 1) * *n as usize].to_vec() });
+                        cands.push(XOp::Pixels { n: *n, data: data[..(px / 2) * *n as usize].to_vec(), inexact: *inexact });
+                        cands.push(XOp::Pixels { n: *n, data: data[..(px - 1) * *n as usize].to_vec(), inexact: *inexact });
+                    }
+                    if *inexact {
+                        cands.push(XOp::Pixels { n: *n, data: data.clone(), inexact: false });
                     }
                 }
                 XOp::Repeat { n, pixel, count } => {
